@@ -64,19 +64,21 @@ def worker_init(build_dir, backend):
     CTX.build_dir = build_dir
 
 
-def _profile(prop):
+def _profile(prop, tier="quick"):
     from gsim import allprofiles  # noqa: registers everything
     from gsim.profiles import REGISTRY
 
-    return REGISTRY[prop]()
+    p = REGISTRY[prop]()
+    p.tier = tier
+    return p
 
 
-def task_batch(prop, seed, runs, want_sample):
+def task_batch(prop, seed, runs, want_sample, tier="quick"):
     """Worker task: execute a list of run indexes, return compact summaries."""
     from gsim.sim import run_one
 
     faulthandler.dump_traceback_later(600, exit=True)
-    prof = _profile(prop)
+    prof = _profile(prop, tier)
     out = []
     for run in runs:
         t0 = time.process_time()
@@ -268,7 +270,7 @@ def do_batch(args, tier, prof, pools, t_start, jobs):
     first = True
     for b in BACKENDS:
         for c in ch[b]:
-            f = pools[b].submit(task_batch, prop, args.seed, c, first or (c[0] % 997 == 0))
+            f = pools[b].submit(task_batch, prop, args.seed, c, first or (c[0] % 997 == 0), tier)
             first = False
             futs[f] = (b, c)
     results = []
